@@ -327,6 +327,187 @@ func (a *A) exactFitComplete() {
 }
 
 // ---------------------------------------------------------------------------------------------
+// C02 R9: a unit is never complete before the first byte of its first section has been seen
+
+// sectionSeenBeforeComplete: in isPSIComplete, every path from the first fetch (the pointer_field) to a return that may
+// be true passes a second successful fetch on the same iterator (the table_id of the first section). Otherwise a first
+// chunk that only holds the pointer_field (and its filler bytes) is reported complete and the PAT/PMT is flushed before
+// its sections arrive. The search is path-sensitive in one fact: two HasBytesLeft() calls with no cursor movement in
+// between yield the same value.
+func (a *A) sectionSeenBeforeComplete() {
+	const rule, key = "R9", "isPSIComplete/section-seen-before-complete"
+	f := a.anchor(rule, "isPSIComplete")
+	if f == nil {
+		return
+	}
+	isFetch := func(n string) bool { return n == "NextByte" || n == "NextBytes" || n == "NextBytesNoCopy" }
+	moves := func(n string) bool { return isFetch(n) || n == "Skip" || n == "Seek" || n == "Dump" }
+	// the first fetch
+	var first *ssa.Call
+	var it ssa.Value
+	for _, b := range f.DomPreorder() {
+		for _, in := range b.Instrs {
+			c, ok := in.(*ssa.Call)
+			if !ok {
+				continue
+			}
+			if n, recv, _ := iterMethod(c); recv != nil && isFetch(n) {
+				first, it = c, recv
+				break
+			}
+		}
+		if first != nil {
+			break
+		}
+	}
+	if first == nil {
+		a.R.Unknown(rule, key, a.fpos(f), "no fetch on a BytesIterator found in isPSIComplete")
+		return
+	}
+	// the error of a fetch: the edge on which it is nil
+	fetchErr := func(c *ssa.Call) ssa.Value {
+		for _, r := range *c.Referrers() {
+			if e, ok := r.(*ssa.Extract); ok && e.Index == 1 {
+				return e
+			}
+		}
+		return nil
+	}
+	type st struct {
+		b     *ssa.BasicBlock
+		idx   int
+		known int // 0 unknown, 1 HasBytesLeft true, 2 false
+	}
+	seen := map[st]bool{}
+	var bad []string
+	var walk func(s st, hbl map[ssa.Value]bool)
+	walk = func(s st, hbl map[ssa.Value]bool) {
+		if seen[s] || len(bad) > 3 {
+			return
+		}
+		seen[s] = true
+		known := s.known
+		for i := s.idx; i < len(s.b.Instrs); i++ {
+			switch in := s.b.Instrs[i].(type) {
+			case *ssa.Call:
+				n, recv, _ := iterMethod(in)
+				if recv == nil || recv != it {
+					continue
+				}
+				if isFetch(n) {
+					// a second fetch: the path is fine on its success edge; the failure edge must not report complete,
+					// which the generic rule below checks too (returns reachable without a successful fetch)
+					ev := fetchErr(in)
+					// continue only along the failure edge: find the If on ev != nil
+					failWalk(a, in, ev, func(nb *ssa.BasicBlock) { walk(st{nb, 0, 0}, hbl) }, func(msg string) { bad = append(bad, msg) })
+					return
+				}
+				if moves(n) {
+					known = 0
+				}
+				if n == "HasBytesLeft" {
+					hbl[in] = true
+				}
+			case *ssa.Return:
+				if len(in.Results) != 1 {
+					continue
+				}
+				for _, l := range pathVals(in.Results[0], in.Block(), nil, f.Blocks[0]) {
+					if l == nil {
+						continue
+					}
+					if cb, ok := ssau.ConstBool(l); ok && !cb {
+						continue
+					}
+					bad = append(bad, fmt.Sprintf("the return at %s can report 'complete' on a path on which nothing but the pointer_field (fetched at %s) and its filler bytes has been read", a.ipos(in), a.ipos(first)))
+					break
+				}
+				return
+			case *ssa.If:
+				cv, neg := stripNot(in.Cond)
+				if c := callOf(cv); c != nil && hbl[c] {
+					// HasBytesLeft: true edge = succ 0 (xor neg)
+					for side := 0; side < 2; side++ {
+						val := (side == 0) != neg // value of HasBytesLeft on this edge
+						k := 1
+						if !val {
+							k = 2
+						}
+						if known != 0 && known != k {
+							continue
+						}
+						walk(st{s.b.Succs[side], 0, k}, hbl)
+					}
+					return
+				}
+				for _, nb := range s.b.Succs {
+					walk(st{nb, 0, known}, hbl)
+				}
+				return
+			case *ssa.Jump:
+				walk(st{s.b.Succs[0], 0, known}, hbl)
+				return
+			}
+		}
+	}
+	// start right after the first fetch, on its success edge
+	started := false
+	ev := fetchErr(first)
+	hbl := map[ssa.Value]bool{}
+	succWalk(first, ev, func(nb *ssa.BasicBlock) { started = true; walk(st{nb, 0, 0}, hbl) })
+	switch {
+	case !started:
+		a.R.Unknown(rule, key, a.ipos(first), "the success edge of the pointer_field fetch could not be identified")
+	case len(bad) > 0:
+		a.R.Bad(rule, key, a.ipos(first), strings.Join(bad, "; "))
+	default:
+		a.R.OK(rule, key, a.ipos(first), fmt.Sprintf("every path from the pointer_field fetch to a return that may be true passes a second successful fetch on the same iterator (%d path states explored; HasBytesLeft() is re-evaluated consistently while the cursor does not move)", len(seen)))
+	}
+}
+
+// succWalk calls f with the block entered when the error ev of fetch c is nil.
+func succWalk(c *ssa.Call, ev ssa.Value, f func(*ssa.BasicBlock)) {
+	edgeWalk(ev, true, f)
+}
+
+// failWalk continues along the edge on which the fetch failed.
+func failWalk(a *A, c *ssa.Call, ev ssa.Value, f func(*ssa.BasicBlock), report func(string)) {
+	if ev == nil {
+		return
+	}
+	edgeWalk(ev, false, f)
+}
+
+// edgeWalk finds the If that tests ev against nil and calls f with the successor for ev == nil (wantNil) or ev != nil.
+func edgeWalk(ev ssa.Value, wantNil bool, f func(*ssa.BasicBlock)) {
+	if ev == nil {
+		return
+	}
+	for _, r := range *ev.Referrers() {
+		b, ok := r.(*ssa.BinOp)
+		if !ok || (b.Op != token.NEQ && b.Op != token.EQL) {
+			continue
+		}
+		for _, rr := range *b.Referrers() {
+			iff, ok := rr.(*ssa.If)
+			if !ok {
+				continue
+			}
+			// NEQ: succ0 = non-nil, succ1 = nil
+			nilSucc := 1
+			if b.Op == token.EQL {
+				nilSucc = 0
+			}
+			if wantNil {
+				f(iff.Block().Succs[nilSucc])
+			} else {
+				f(iff.Block().Succs[1-nilSucc])
+			}
+		}
+	}
+}
+
+// ---------------------------------------------------------------------------------------------
 // C02 R7: the early-flush guard reads the live program map
 
 type psiGuard struct {
